@@ -23,7 +23,8 @@ TECHNIQUE = 'bounded exhaustive enumeration of programs x span lengths x every p
 RULE = ('programs: S1 index forms (variables/parameters/errors, RHS and LHS offsets) + all S4 systems over 6 (quick) / 12 (thorough) right-hand sides + 8 programs mixing a named period with lags/leads; span lengths '
         'LAGS+LEADS+1..+3; every t in [-len, len); options {plain, errors=ignore, offset -1/+1, min_iter>max_iter, pre-existing NaN}; solve() over every (start, end) pair. '
         'non-trivial = solve that performs at least one evaluation pass or is rejected'
-        ' Linker-driven solves: 3 scripts x lengths 4,5 x 1,2 submodels x every t in [-len, len) x every offset in [-len-1, len+1]: an offset outside the span is refused with IndexError and nothing written, otherwise only period t changes.')
+        ' Linker-driven solves: 3 scripts x lengths 4,5 x 1,2 submodels x every t in [-len, len) x every offset in [-len-1, len+1]: an offset outside the span is refused with IndexError and nothing written, otherwise only period t changes.'
+        ' catch_first_error=False with pre-existing non-finite values; linker solves restricted to one of two submodels; a second solve() refused at its first period; an alias spelled like an endogenous variable and non-finite inputs x 6 option sets: inputs are never written.')
 ASSUMPTIONS = [
     'the recording arrays are installed in the instance storage the property anchors name (obj.__dict__["_" + name])',
     'an explicit request for an infeasible period may raise any exception class',
@@ -270,12 +271,34 @@ def run_solve_case(case, p=None, Model=None):
     if si is None and ei is None and res == 'value':
         if list(val[1]) != list(range(lags, n - leads)):
             out.append(('solve:default-range', list(range(lags, n - leads)), list(val[1]), 'default range is not the set of feasible periods'))
+    if not out and res == 'value' and e0 > s0 and not infeasible and endo and not any(lhs_offs):
+        # a second run over the solved range that is refused at its first period (a NaN has appeared in a check variable there):
+        # the later periods - solved by the first run, never reached by the second - keep values, status and iteration counts
+        m[endo[0]][s0] = np.nan
+        before2 = snapshot(m)
+        r2 = refsolve.call_outcome(m.solve, start=None if si is None else labels[si], end=None if ei is None else labels[ei], errors='raise', **kw)
+        ch2 = changed(before2, m)
+        if r2[0] != 'SolutionError' or ch2:
+            out.append(('solve:second-run-refused-at-first-period', ['SolutionError', []], [r2[0], sorted(ch2)[:4]], 'a run refused at its first period changed periods it never reached'))
     return out
 
 
 def run_block(block, tier, seed):
     acc = Acc()
     if block.get('linker'):
+        for shadow in (True, False):
+            for n in (4, 5):
+                for t in range(1, n):
+                    for kw in (dict(max_iter=3, failures='ignore'), dict(max_iter=3, failures='ignore', offset=-1), dict(max_iter=3, failures='ignore', offset=1),
+                               dict(max_iter=4, failures='ignore', errors='replace'), dict(max_iter=4, failures='ignore', errors='ignore'), dict(max_iter=2, failures='ignore', errors='skip')):
+                        for nonfinite in (False, True):
+                            if kw.get('offset') and not (0 <= t + kw['offset'] < n):
+                                continue
+                            case = dict(kind='shadow', shadow=shadow, n=n, t=t, kw=kw, nonfinite_input=nonfinite)
+                            acc.evaluations += 1
+                            acc.nontrivial += 1
+                            for key, exp, obs, what in run_shadow_case(case):
+                                acc.violation(key, case, exp, obs, what)
         for script in _LK_SCRIPTS:
             for n in (4, 5):
                 for nsub in (1, 2):
@@ -390,7 +413,43 @@ def run_linker_case(case):
     return out
 
 
+_SHADOW = {}
+
+
+@robust()
+def run_shadow_case(case):
+    """An alias spelled like an endogenous variable (ALIASES = {'Y': 'X'}): the solver works on the variables themselves, so an
+    offset copy, the passes and errors='replace' still change only endogenous cells of period t."""
+    if 'cls' not in _SHADOW:
+        base = fsic.build_model(fsic.parse_model('Y = 0.5 * Y[-1] + X + {a}\nZ = Y / (X - 2)'))
+        _SHADOW['cls'] = type('Shadowed', (AliasMixin, base), {'ALIASES': {'Y': 'X', 'Z': 'a'}})
+        _SHADOW['plain'] = base
+    n, t, kw = case['n'], case['t'], dict(case['kw'])
+    m = (_SHADOW['cls'] if case['shadow'] else _SHADOW['plain'])(range(n))
+    for j, name in enumerate(('Y', 'Z', 'X', 'a')):
+        m.__dict__['_' + name][:] = [0.5 + j + 0.25 * q for q in range(n)]
+    if case.get('nonfinite_input'):
+        m.__dict__['_X'][t] = 2.0            # Z divides by zero at t ...
+        m.__dict__['_a'][t] = np.inf         # ... and a parameter is infinite there: inputs are never written to
+    before = {name: m.__dict__['_' + name].copy() for name in ('Y', 'Z', 'X', 'a', 'status', 'iterations')}
+    res, cause, _ = refsolve.call_outcome(m.solve_t, t, **kw)
+    out = []
+    for name in ('X', 'a'):
+        if m.__dict__['_' + name].tobytes() != before[name].tobytes():
+            out.append(('inputs-changed:%s' % ('alias-shadow' if case['shadow'] else 'plain'), before[name].tolist(), m.__dict__['_' + name].tolist(), 'solving a period changed the exogenous variable / parameter %s' % name))
+            return out
+    for name in ('Y', 'Z', 'status', 'iterations'):
+        now = m.__dict__['_' + name]
+        stray = [q for q in range(n) if q != t and now[q:q + 1].tobytes() != before[name][q:q + 1].tobytes()]
+        if stray:
+            out.append(('other-period-changed:%s' % ('alias-shadow' if case['shadow'] else 'plain'), [], [name, stray], 'solving period %d changed another period' % t))
+            return out
+    return out
+
+
 def run_one(case):
+    if case['kind'] == 'shadow':
+        return run_shadow_case(case)
     if case['kind'] == 'linker':
         return run_linker_case(case)
     if case['kind'] == 'solve':
